@@ -36,8 +36,13 @@ DiffExplained(e, pred(_, _, _)) ==
   LET fd == FieldDiff(ExpectedMessages(e.prog, e.pydantic, e.stdmod), ObservedMessages(e.obs)) IN
   /\ \A d \in fd : d[3] # {} /\ \A x \in d[3] : MapOfWrapper(e.prog, d[1], d[2], x.num) \/ WrapperShadowed(e.prog, d[1], d[2], x)
   /\ \E d \in fd : \E x \in d[3] : pred(d[1], d[2], x)
+\* a field named like a builtin type (float, list, str ...) in a package generated with pydantic_dataclasses: pydantic
+\* evaluates the annotations in the class namespace, where that name is already bound to the field
+BuiltinNamedField(prog) == \E m \in SeqSet(prog.msgs) : \E j \in 1..Len(m.fields) : m.fields[j].name \in SeqSet(Shard.hdr.builtin_type_names)
 KFP(e, clause) ==
-  IF clause = "fields_differ_from_schema" /\ ~ClassNameClash(e.prog)
+  IF clause \in {"generated_package_does_not_import", "class_cannot_be_introspected"} /\ e.pydantic /\ BuiltinNamedField(e.prog)
+  THEN "KF_C18_BuiltinNamedFieldUnderPydantic"
+  ELSE IF clause = "fields_differ_from_schema" /\ ~ClassNameClash(e.prog)
      /\ DiffExplained(e, LAMBDA mod, cls, x : MapOfWrapper(e.prog, mod, cls, x.num)) THEN "KF_C03_WrapperAsMapValue"
   ELSE IF clause = "fields_differ_from_schema" /\ ~ClassNameClash(e.prog)
      /\ DiffExplained(e, LAMBDA mod, cls, x : WrapperShadowed(e.prog, mod, cls, x)) THEN "KF_C03_WrapperShadowedByFieldName"
